@@ -90,7 +90,9 @@ def compile(policy: dict[str, Any]) -> Any:
     # Map actions -> rules (stable order). '*' kept separately and appended last.
     by_action: dict[str, list[dict[str, Any]]] = {}
     star_rules: list[dict[str, Any]] = []
+    order: dict[int, int] = {}
     for rule in rules:
+        order.setdefault(id(rule), len(order))
         acts = _actions(rule)
         if not acts:
             continue
@@ -121,6 +123,8 @@ def compile(policy: dict[str, Any]) -> Any:
             if rid not in seen:
                 candidates.append(r)
                 seen.add(rid)
+        # Keep document order ('*' rules must not be overtaken by named-action rules)
+        candidates.sort(key=lambda r: order.get(id(r), 0))
 
         # Put candidates into buckets and PICK ONLY the most specific non-empty bucket
         buckets: list[list[dict[str, Any]]] = [[], [], [], []]
